@@ -27,7 +27,7 @@ def judge(ctx, binp, events, what):
     seq = [b for b in bad if not b["in"].get("par")]
     par = [b for b in bad if b["in"].get("par")]
     # concurrent batches are reproduced as a whole batch (their trace), sequential calls one by one
-    for e in vlib.reproduce(ctx, binp, seq) + vlib.reproduce_by_trace(ctx, binp, events, par):
+    for e in vlib.reproduce(ctx, binp, seq, history=events) + vlib.reproduce_concurrent(ctx, binp, events, par, "Bech32Trace"):
         ctx.bad.append(dict(event=e, reason=what))
 
 
